@@ -27,7 +27,9 @@ RULE = ('matrix: every (operator, left, right) over the 14 binary operators and 
         'with BareScriptRuntimeError, plus a leaf rebind() that re-binds a called name; alias: every expression built-in x every argument tuple of arity <= 3 over a '
         '12-value pool against the library function it is documented to alias; shadow: a global or local binding wins over '
         'every built-in; libshadow: two-step history on one globals object - bind the aliased library NAME to a script function / host '
-        'function / value / null, then the built-in must still give the stock library function\'s result. Non-trivial: a matrix cell whose result is not null; a tree where some valuation leaves a leaf '
+        'function / value / null, then the built-in must still give the stock library function\'s result; keywords: expressions over null/true/false '
+        '(alone, as operands, call arguments, if() condition and branches) evaluated while a variable of the keyword\'s name is bound '
+        '(globals / locals / both / script assignment / function parameter) - the keyword is the constant regardless. Non-trivial: a matrix cell whose result is not null; a tree where some valuation leaves a leaf '
         'unevaluated; an order tree with at least two leaves; an alias call that returns a non-null value; a shadowed name whose built-in accepts the argument 1; a libshadow case whose user binding is callable and would '
         'give a different result.')
 ASSUMPTIONS = [
@@ -643,6 +645,98 @@ def fam_libshadow(arg):
     return acc.result()
 
 
+# (e) the keywords null / true / false while a variable of the same name is in scope
+
+KEYWORDS = ['null', 'true', 'false']
+
+
+def _kw(k):
+    return {'variable': k}
+
+
+_X = {'variable': 'x'}
+
+
+def _bin(op, left, right):
+    return {'binary': {'op': op, 'left': left, 'right': right}}
+
+
+def _call(name, *args):
+    return {'function': {'name': name, 'args': list(args)}}
+
+
+# (label, source text with K for the keyword, model builder). x is an ordinary variable bound to 3, hh a host function.
+KEYWORD_TEMPLATES = [
+    ('alone', 'K', _kw),
+    ('K == x', 'K == x', lambda k: _bin('==', _kw(k), _X)),
+    ('K && x', 'K && x', lambda k: _bin('&&', _kw(k), _X)),
+    ('K || x', 'K || x', lambda k: _bin('||', _kw(k), _X)),
+    ('x && K', 'x && K', lambda k: _bin('&&', _X, _kw(k))),
+    ('!K', '!K', lambda k: {'unary': {'op': '!', 'expr': _kw(k)}}),
+    ('-K', '-K', lambda k: {'unary': {'op': '-', 'expr': _kw(k)}}),
+    ("'' + K", "'' + K", lambda k: _bin('+', {'string': ''}, _kw(k))),
+    ('hh(K, x)', 'hh(K, x)', lambda k: _call('hh', _kw(k), _X)),
+    ('if(K, x, 9)', 'if(K, x, 9)', lambda k: _call('if', _kw(k), _X, {'number': 9.0})),
+    ('if(x, K, 9)', 'if(x, K, 9)', lambda k: _call('if', _X, _kw(k), {'number': 9.0})),
+    ('if(0, x, K)', 'if(0, x, K)', lambda k: _call('if', {'number': 0.0}, _X, _kw(k))),
+]
+KEYWORD_BINDINGS = [('7', 7, '7'), ("'kw'", 'kw', "'kw'"), ('[1]', [1], 'arrayNew(1)')]       # (label, value, script literal)
+KEYWORD_SCOPES = ['globals', 'locals', 'both', 'script assignment', 'script function parameter']
+
+
+def check_keywords(case, acc):
+    bs = load_impl()
+    label, text, build = KEYWORD_TEMPLATES[case['template']]
+    kw = KEYWORDS[case['keyword']]
+    _, value, literal = KEYWORD_BINDINGS[case['binding']]
+    scope = KEYWORD_SCOPES[case['scope']]
+    model = build(kw)
+    text = text.replace('K', kw)
+    case = dict(case, text=f'{text}   with {kw} bound to {literal} in: {scope}')
+    # the reference sees the same bindings - and ignores them: a keyword is a constant whatever the environment says
+    want = rx.evaluate(model, {'x': 3, kw: value}, {'hh': list})
+    want_obs = ('value', obs(want))
+    glob = {'x': 3, 'hh': host_hh}
+    if scope == 'globals':
+        glob[kw] = copy.deepcopy(value)
+        got = guarded(bs.evaluate_expression, model, {'globals': glob}, None, True)
+    elif scope == 'locals':
+        got = guarded(bs.evaluate_expression, model, {'globals': glob}, {kw: copy.deepcopy(value)}, True)
+    elif scope == 'both':
+        glob[kw] = copy.deepcopy(value)
+        got = guarded(bs.evaluate_expression, model, {'globals': glob}, {kw: copy.deepcopy(value)}, True)
+    elif scope == 'script assignment':
+        got = guarded(lambda: bs.execute_script(bs.parse_script(f'{kw} = {literal}\nreturn {text}\n'), {'globals': glob}))
+    else:
+        source = f'function kf({kw}):\n    return {text}\nendfunction\nreturn kf({literal})\n'
+        got = guarded(lambda: bs.execute_script(bs.parse_script(source), {'globals': glob}))
+    acc.evals += 1
+    acc.states += 1
+    acc.transitions += 1
+    acc.traces += 1
+    got_obs = ('value', obs(got[1])) if got[0] == 'value' else got
+    if got_obs != want_obs:
+        acc.violation(case, want_obs, got_obs, f'the keyword {kw} did not denote its constant while a variable named {kw} was bound ({scope})')
+    # non-trivial: reading the variable instead of the constant would have changed the result
+    alt = rx.evaluate(build('kwvar'), {'x': 3, 'kwvar': value}, {'hh': list})
+    return want_obs, ('value', obs(alt)) != want_obs
+
+
+def fam_keywords(arg):
+    acc = Acc('keywords')
+    for template in arg:
+        for keyword in range(len(KEYWORDS)):
+            for binding in range(len(KEYWORD_BINDINGS)):
+                for scope in range(len(KEYWORD_SCOPES)):
+                    acc.cases += 1
+                    out, matters = check_keywords({'template': template, 'keyword': keyword, 'binding': binding, 'scope': scope}, acc)
+                    acc.outcome((template, keyword, out))
+                    if matters:
+                        acc.nontrivial += 1
+        acc.sample({'expression': KEYWORD_TEMPLATES[template][1].replace('K', 'null'), 'environment': 'null bound to 7 in locals'})
+    return acc.result()
+
+
 # ---------------------------------------------------------------------------------------------------------------------
 
 
@@ -688,11 +782,15 @@ def families(tier):
         Family('libshadow', fam_libshadow, split([n for n in names if n not in NONDETERMINISTIC], 8),
                f'{len(LIBSHADOW_ARGS)} deterministic built-ins x {len(LIBSHADOW_KINDS)} kinds of user binding of the aliased library name x 2 argument tuples',
                expected=len(LIBSHADOW_ARGS) * len(LIBSHADOW_KINDS) * 2),
+        Family('keywords', fam_keywords, split(list(range(len(KEYWORD_TEMPLATES))), 8),
+               f'{len(KEYWORD_TEMPLATES)} expression templates x 3 keywords x {len(KEYWORD_BINDINGS)} bound values x {len(KEYWORD_SCOPES)} scopes in which a '
+               'variable of the keyword\'s name is bound',
+               expected=len(KEYWORD_TEMPLATES) * len(KEYWORDS) * len(KEYWORD_BINDINGS) * len(KEYWORD_SCOPES)),
         Family('shadow', fam_shadow, split(names, 2), 'every expression built-in name bound in globals / in locals', expected=2 * len(names)),
     ]
 
 
-_CHECKS = {'matrix': check_matrix, 'effects': check_effects, 'order': check_effects, 'callee': check_effects, 'alias': check_alias, 'shadow': check_shadow, 'libshadow': check_libshadow}
+_CHECKS = {'matrix': check_matrix, 'effects': check_effects, 'order': check_effects, 'callee': check_effects, 'alias': check_alias, 'shadow': check_shadow, 'libshadow': check_libshadow, 'keywords': check_keywords}
 
 
 def replay(family, case):
